@@ -536,7 +536,7 @@ def c03(ctx):
 # Hash family: C06 (HashCases), C04 (Chain)
 
 def c06(ctx):
-    ctx.rule = ("HashCases.tla over Hash.tla (ideal hash, JCS forgets the spelling): (calc) 14 concrete JSON values x 6 "
+    ctx.rule = ("HashCases.tla over Hash.tla (ideal hash, JCS forgets the spelling): (calc) 15 concrete JSON values x 6 "
                 "multihash codes (SHA-256, SHA-512, SHA3-256, SHA-1, identity, an unregistered code), each value "
                 "handed over decoded, as bytes and in another spelling, the result compared with "
                 "B64(MH(code, H(JCS(value)))) from reference SHA-2 / framing / JCS; (valid) value x {same, "
@@ -546,7 +546,7 @@ def c06(ctx):
                 "'computed with one of' test for every class x 4 code lists. TLC checks ContentAddress and "
                 "AlgorithmInPrefix on the model and prints the expected verdicts.")
     ctx.assumptions = APPLIER_ASSUME[:1] + ["values are objects / arrays (the canonicalizer's domain); numbers, escapes, "
-                                            "UTF-16 member order are exercised through the 14 table values, the "
+                                            "UTF-16 member order are exercised through the 15 table values, the "
                                             "full JCS space is C05's"]
     _, summ = ctx.tlc_pipe("MC_HashCases.tla", "MC_HashCases.cfg", ["hash-replay"], workers=4,
                            label="calc / valid / code cases")
